@@ -392,7 +392,7 @@ def run_cont_case(case):
             continue
         jump = float(np.max(np.abs(a - b))) / abs(delta)
         tol = K1_BOUND * 2.0e-9 + K_NOISE
-        worst("cont_straddle_jump_over_tolerance", jump / tol)
+        worst("cont_straddle_jump_over_tolerance_mode_" + case["mode"], jump / tol)
         if not jump <= tol:
             viol.append(("cont | jump across the branch switch | mode=%s" % case["mode"],
                          dict(centre=centre, jump_over_width=jump, tol=tol)))
